@@ -222,7 +222,7 @@ class WorldGen:
         if self.maybe(0.15):
             kw["exclusiveMaximum"] = rng.choice(pool)
         if self.maybe(0.2):
-            kw["multipleOf"] = rng.choice([1, 2, 3, 5, 0.5, 2.0])
+            kw["multipleOf"] = rng.choice([1, 2, 3, 5, 0.5, 2.0, 2.5])
 
     def array_kw(self, kw, depth):
         rng = self.rng
@@ -551,7 +551,7 @@ def _numeric_instance(rng, el, integer):
             val = int(val)
     if not integer and rng.random() < 0.3:
         val = float(val)
-    if rng.random() < 0.03:
+    if rng.random() < (0.2 if isinstance(mult, float) else 0.03):
         # far beyond float precision (exact-arithmetic paths, if any)
         val = 10 ** rng.choice([17, 23, 29, 31]) + rng.choice([0, 1, 5])
     return val
